@@ -2,11 +2,16 @@
 //! only a single push (or pop) may execute the critical region at a time
 
 use super::super::ogre_stacks::OgreStack;
+#[cfg(not(feature = "verif"))]
 use std::{
     fmt::Debug,
     sync::atomic::{AtomicU64,AtomicBool,Ordering},
     mem::MaybeUninit,
 };
+#[cfg(feature = "verif")]
+use std::{fmt::Debug, sync::atomic::Ordering, mem::MaybeUninit};
+#[cfg(feature = "verif")]
+use crate::verif::{AtomicU64, AtomicBool};
 
 
 #[repr(C,align(64))]      // aligned to cache line sizes to avoid false-sharing performance degradation
@@ -137,6 +142,15 @@ impl<SlotType: Copy+Debug, const BUFFER_SIZE: usize, const METRICS: bool, const 
 
 }
 
+
+/// verification hooks: lets the external harness name the shared cells
+#[cfg(feature = "verif")]
+impl<SlotType, const BUFFER_SIZE: usize, const METRICS: bool, const DEBUG: bool>
+Stack<SlotType, BUFFER_SIZE, METRICS, DEBUG> {
+    /// address of the flag; (head, locked?) read without scheduling points
+    pub fn verif_flag_addr(&self) -> usize { &self.flag as *const AtomicBool as usize }
+    pub fn verif_state(&self) -> (u32, bool) { (self.head, self.flag.raw()) }
+}
 
 #[cfg(any(test,doc))]
 mod tests {
